@@ -3,6 +3,7 @@ package checks
 import (
 	"bytes"
 	"context"
+	"errors"
 	"fmt"
 	"strings"
 
@@ -29,7 +30,7 @@ func init() {
 		Assumptions: []string{"ref.Project implements DESIGN.md 8.4; inclusion results are compared as field sets", "fan-out over arrays of sub-documents, overlapping paths, numeric path segments are generated for the non-mutation oracle only"},
 		Batches:     func(tier string) int { return 16 },
 		Require: func(tier string) map[string]int64 {
-			return map[string]int64{"ref_asserted": 1500, "nonmutation_checked": 3000, "subdoc_relation_checked": 2000, "mix_rejected": 50, "driver_compared": 300}
+			return map[string]int64{"ref_asserted": 1500, "nonmutation_checked": 3000, "subdoc_relation_checked": 2000, "mix_rejected": 50, "mix_rejected_driver": 20, "driver_compared": 300}
 		},
 		Run: runC14,
 	})
@@ -102,6 +103,27 @@ func c14Case(c *fw.Ctx, ctx context.Context, coll lungo.ICollection, d bson.D, p
 		if lerr == nil {
 			w["result"] = gen.JSON(*got)
 			c.Violate("project:mix-accepted", "a projection mixing inclusion and exclusion was accepted", w)
+		}
+		// driver level: the mix is an error of the call, also when the filter
+		// matches nothing or the collection does not exist (nothing is projected)
+		if idx%2 == 0 {
+			c.Count("mix_rejected_driver", 1)
+			none := bson.D{{Key: "_id", Value: "no such document"}}
+			for _, cl := range []lungo.ICollection{coll, coll.Database().Collection("c14-missing")} {
+				if cur, err := cl.Find(ctx, none, options.Find().SetProjection(proj)); err == nil {
+					cur.Close(ctx)
+					c.Violate("project:mix-accepted-driver", "Find accepted a projection mixing inclusion and exclusion (no document matched)", w)
+					break
+				}
+				if err := cl.FindOne(ctx, none, options.FindOne().SetProjection(proj)).Err(); err == nil || errors.Is(err, lungo.ErrNoDocuments) {
+					c.Violate("project:mix-accepted-driver", fmt.Sprintf("FindOne accepted a projection mixing inclusion and exclusion (no document matched): %v", err), w)
+					break
+				}
+				if err := cl.FindOneAndDelete(ctx, none, options.FindOneAndDelete().SetProjection(proj)).Err(); err == nil || errors.Is(err, lungo.ErrNoDocuments) {
+					c.Violate("project:mix-accepted-driver", fmt.Sprintf("FindOneAndDelete accepted a projection mixing inclusion and exclusion (no document matched): %v", err), w)
+					break
+				}
+			}
 		}
 	}
 	if !info.OutOfDomain {
